@@ -244,11 +244,15 @@ CLAIMED['C17'] = dict(
          'so every input history of the renamed chart produces the image of the original run (C17_equivariance_run; locality and '
          'necessity of the order hypothesis also proved). Tied to the code by lock-step runs of the real implementation: original vs '
          'chart renamed through rename_state (random order-preserving renamings of random subsets, charts with internal transitions and '
-         'entry/exit code), structural comparison with the image, and guest vs host after copy_from_statechart.',
+         'entry/exit code), structural comparison with the image, and guest vs host after copy_from_statechart. (copy, CopyProofs over '
+         'theories/Copy.v, the model of copy_from_statechart checked against the implementation on every plug attempt, accepted or '
+         'refused) the host gains exactly the image of the source sub-statechart under the renaming, each transition touching it once, '
+         'nothing else changes (C17_copy_structure), the host stays sound under two side conditions proved necessary (C17_copy_sound, '
+         'two refutations), a refused copy changes nothing when refused at the outset (copy_refused_unchanged).',
     design_ref='DESIGN.md section 6 (C17)',
     note='Trusted: Coq kernel+VM; hand-written model validated differentially; the evaluator must not depend on state names (code is not '
-         'rewritten by rename_state); behaviour of a copied sub-chart inside its host is checked by lock-step runs only (no theorem), as '
-         'planned in DESIGN.md.',
+         'rewritten by rename_state); the copied sub-chart is proved to be the renamed image of the source (structure); that an embedded '
+         'sub-chart BEHAVES inside its host as on its own is checked by lock-step runs only (no simulation theorem).',
     technique='Coq proof (equivariance of every model function) + metamorphic differential runs (rename_state, copy_from_statechart)')
 
 CLAIMED['C18'] = dict(
